@@ -52,8 +52,8 @@ Proof. exact dec_i32_out_of_range. Qed.
 
 (* tie to the source *)
 Theorem c12_generated_conforms :
-  forallb (fun f => env_conforms_role decl_de (gen_env f) (spec_env f)) all_feats = true.
-Proof. exact generated_de_role. Qed.
+  forallb (fun f => request_side_conforms (gen_env f) (spec_env f)) all_feats = true.
+Proof. exact generated_request_side. Qed.
 
 Example c12_ex : blen [1; 2; 3] < 4294967296 /\ (64 <? blen [1; 2; 3]) = false.
 Proof. vm_compute. split; reflexivity. Qed.
